@@ -341,16 +341,79 @@ def rule_readwidth(facts):
 
 def run(ctx):
     facts = ctx["facts"]
-    res = [rule_cell(facts), rule_atomic(facts), rule_phase(facts), rule_heapsz(facts), rule_readwidth(facts)]
+    res = [rule_cell(facts), rule_atomic(facts), rule_phase(facts), rule_heapsz(facts), rule_readwidth(facts), rule_heapinit(facts)]
     return res
 
+
+
+def rule_heapinit(facts):
+    """`Block::try_new_reserve_all` hands out reserved but uninitialised memory. In `SortedBlock::sort_from_blocks` the reordered heap-key
+    and data blocks are allocated that way and become part of the returned block, whose heap-key rows (validity byte + StringPtr) are
+    dereferenced by the merge when two rows of different blocks tie on the key prefix. Whether such a block is filled may therefore
+    depend only on the layout (no heap keys / no data columns at all) - never on what happened while this block was sorted. Decided: every
+    branch between the allocation and its `apply_sort_indices` that can skip the fill is an error propagation or is computed from a layout
+    query (any_requires_heap / num_columns)."""
+    from .mir import Fn, switch_edges
+    r = RuleResult("C16-HEAPINIT", "the reordered key/data blocks of a sorted block are filled unless the layout has nothing to store there", floor=2)
+    recs = facts.fns_matching(lambda i: i.endswith("sorted_block::SortedBlock::sort_from_blocks"))
+    if not recs:
+        r.missing_anchor("SortedBlock::sort_from_blocks")
+        return r
+    rec = recs[0]
+    fn = Fn(rec)
+    r.functions.add(fn.id)
+    allocs = [c for c in fn.calls() if c.name.endswith("Block::try_new_reserve_all")]
+    fills = [c for c in fn.calls() if c.name.endswith("apply_sort_indices")]
+    if not allocs or not fills:
+        r.missing_anchor("sort_from_blocks: try_new_reserve_all / apply_sort_indices")
+        return r
+    LAYOUT = ("any_requires_heap", "num_columns", "requires_heap", "is_empty")
+    for fl in fills:
+        pre = [a for a in allocs if fn.dominates(a.bb, fl.bb)]
+        if not pre:
+            continue
+        a = pre[0]
+        for x in pre:
+            if fn.dominates(a.bb, x.bb):
+                a = x                                   # the closest dominating allocation
+        bad = []
+        for b in fn.reachable_from(a.bb):
+            t = fn.term(b)
+            if t[0] != "switch" or t[1][0] not in ("c", "m") or not fn.dominates(a.bb, b):
+                continue
+            if not any(fn.edge_dominates(b, tgt, fl.bb) for _v, tgt in switch_edges(t)):
+                continue
+            o = fn.origin(t[1], at=b)
+            kind = None
+            if o[0] == "rv" and o[1][0] == "disc":
+                src = fn.origin(["c", [o[1][1][0], []]], at=b)
+                if src[0] == "call" and src[1].name.endswith("::branch"):
+                    kind = "error propagation"
+            if o[0] == "call" and o[1].name.rsplit("::", 1)[-1] in LAYOUT:
+                kind = "layout"
+            if o[0] == "rv" and o[1][0] == "bin":
+                for x in o[1][2:4]:
+                    if x[0] in ("c", "m"):
+                        ox = fn.origin(x, at=b)
+                        if ox[0] == "call" and ox[1].name.rsplit("::", 1)[-1] in LAYOUT:
+                            kind = "layout"
+            if kind is None:
+                bad.append(b)
+        ok = not bad
+        r.call_sites += 1
+        r.inst({"fn": fn.id, "fill_line": fl.line, "alloc_line": a.line, "non_layout_guard_blocks": bad}, ok)
+        if not ok:
+            r.violate(fn.id, "fill-skipped-by-runtime-flag", f"the fill at line {fl.line} of the block allocated (uninitialised) at line {a.line} can be skipped by a condition that is "
+                      "not a layout query: the returned block then carries uninitialised heap-key rows that the merge dereferences", rec["file"], fl.line)
+    return r
 
 CLAIM = {
     "text": "Structural soundness preconditions of the unsafe shared-state code, decided on MIR for every path: UnsafeCell accessors that "
             "hand out references are `unsafe fn` (callers must state the invariant), the hand-off counters use Release/Acquire, and the "
             "phase-restricted hash-table operations are dominated by their readiness gates (the drain needs both drain_ready and scan_ready; "
             "per-partition latches carry a gate only if every store of true is behind it). Pointer arithmetic inside row layouts depends on "
-            "runtime sizes and is not decided. One bounds clause is decidable by sibling agreement and is decided: every physical type whose unsafe row-writer arm uses the heap pointers is sized (or rejected) by the safe heap-size computation that allocates the heap block. And: every instantiation of the unchecked primitive Parquet value reader pairs a storage type and a physical type of the same byte width.",
+            "runtime sizes and is not decided. One bounds clause is decidable by sibling agreement and is decided: every physical type whose unsafe row-writer arm uses the heap pointers is sized (or rejected) by the safe heap-size computation that allocates the heap block. And: every instantiation of the unchecked primitive Parquet value reader pairs a storage type and a physical type of the same byte width."
+            " Plus HEAPINIT: the reordered (uninitialised-on-allocation) key/data blocks of a sorted block are filled unless the layout has nothing to store.",
     "note": "trusted: rustc MIR; the gate table in rules/c16.py (confirmed by reading hash_join/mod.rs); counters identified by field name prefix `remaining`",
     "technique": "static analysis: declaration rule + ordering table + MIR must-pass-through gates (rustc_private driver)",
 }
